@@ -11,6 +11,7 @@ use serde_json::json;
 fn scalar_choice(p: &mut Prng, i: u64) -> BigUint {
     let n = &r9::params().n;
     match i % 9 {
+        7 => sparse_scalar(p, 1 + (i / 9) % 14),
         0 => BigUint::one(),
         1 => BigUint::from(2u32),
         2 => BigUint::from(3u32),
@@ -115,11 +116,13 @@ pub fn run(ctx: &mut Ctx) {
             let einv = r9::f12inv(&e).unwrap();
             let np = r9::g1_neg(&Some(pa.clone())).unwrap();
             let nq = r9::g2_neg(&Some(qa.clone())).unwrap();
+            // each call differs from the previous one in exactly one negation: (Q,P) was just evaluated
             let rel: Vec<(&str, gm_sm9::points::Point, gm_sm9::points::TwistPoint, &r9::F12)> = vec![
-                ("consecutive_negated_P", r9::lib_g1(&np, &l1), lq, &einv),
                 ("consecutive_negated_Q", lp, r9::lib_g2(&nq, &l2), &einv),
                 ("consecutive_both_negated", r9::lib_g1(&np, &l1), r9::lib_g2(&nq, &l2), &e),
+                ("consecutive_negated_P", r9::lib_g1(&np, &l1), lq, &einv),
                 ("consecutive_repeat", lp, lq, &e),
+                ("consecutive_negated_Q_other_Z", lp, r9::lib_g2(&nq, &(BigUint::one(), BigUint::from(0u32))), &einv),
             ];
             for (cls, pp, qq, want) in rel {
                 ctx.eval();
